@@ -230,3 +230,164 @@ def c19_fill(detector, a: float = 0.0, b: float = 0.0) -> None:
     detector.pixel.array = 3000.0 + off + idx / 64.0
     detector.signal.array = 4000.0 + off + idx / 64.0
     detector.image.array = np.asarray(5000.0 + off + idx, dtype=np.uint16)
+
+
+# ---------------------------------------------------------------- C09: fault injection
+class OddError(Exception):
+    """an exception class with a constructor that cannot be called with the message alone"""
+
+    def __init__(self, a, b):
+        super().__init__(f"{a}/{b}")
+        self.a, self.b = a, b
+
+
+class QuietError(Exception):
+    """str() of this exception is not its args"""
+
+    def __str__(self):
+        return "quiet:" + ",".join(str(a) for a in self.args)
+
+
+FAULT_CLASSES = {
+    "ValueError": ValueError, "ZeroDivisionError": ZeroDivisionError, "KeyError": KeyError, "TypeError": TypeError,
+    "RuntimeError": RuntimeError, "Exception": Exception, "OSError": OSError, "IndexError": IndexError,
+    "NotImplementedError": NotImplementedError, "AssertionError": AssertionError, "OddError": OddError,
+    "QuietError": QuietError, "LookupError": LookupError, "FloatingPointError": FloatingPointError,
+}
+FAULT_CALLS = {"n": 0}
+
+
+def make_fault(name: str, msg: str, note: str | None = None) -> BaseException:
+    cls = FAULT_CLASSES[name]
+    exc = cls(msg, 7) if cls is OddError else cls(msg)
+    if note is not None:
+        exc.add_note(note)
+    return exc
+
+
+def fault(detector, _id: str = "", level=0, level2=0, plan=None) -> None:
+    """C09: log the call, then raise the planned exception when (model id, run, step) match.
+
+    plan = {"id": <_id of the failing model>, "step": <pipeline_count>, "level": <value of `level` of the failing run or None>,
+            "nth": <raise at the n-th call of the failing model in this process, or None>, "exc": <class name>, "msg": <text>,
+            "note": <a note the model attaches itself, or None>}
+    """
+    import threading
+
+    LOG.append(("fault", str(_id), _canon_val(level), _canon_val(level2), int(detector.pipeline_count), threading.get_ident()))
+    if not plan or plan.get("id") != _id:
+        return
+    if plan.get("nth") is not None:
+        FAULT_CALLS["n"] += 1
+        if FAULT_CALLS["n"] != plan["nth"]:
+            return
+    else:
+        if plan.get("step") is not None and int(detector.pipeline_count) != plan["step"]:
+            return
+        if plan.get("level") is not None and level != plan["level"]:
+            return
+        if plan.get("level2") is not None and level2 != plan["level2"]:
+            return
+    raise make_fault(plan["exc"], plan["msg"], plan.get("note"))
+
+
+# ---------------------------------------------------------------------------------------- C03
+# Writer / snapshot probes of C03 (harness/c03.py sets C03["plan"] and clears the rest before a run).
+C03 = {"calls": 0, "plan": [], "writes": [], "snaps": []}
+C03_BUCKETS = ("photon", "charge", "pixel", "signal", "image")
+
+
+def _c03_ints(a) -> list:
+    """exact integer values of an integer-valued array (any dtype), flattened"""
+    a = np.asarray(a)
+    if a.dtype.kind in "ui":
+        return [int(v) for v in a.ravel().tolist()]
+    return [int(v) for v in a.astype(np.float64).ravel().tolist()]
+
+
+def c03_visible(detector) -> dict:
+    """deep snapshot of the five buckets: None (holds nothing) or {dtype, shape, vals[, wl]};
+    reads private fields only (observing must not convert or initialise anything)"""
+    out = {}
+    for b in C03_BUCKETS:
+        c = getattr(detector, "_" + b)
+        if b == "charge" and len(c._frame):
+            arr = np.array(c.array)  # (not used by the C03 writers)
+        else:
+            arr = c._array
+        if arr is None:
+            out[b] = None
+        elif isinstance(arr, np.ndarray):
+            out[b] = {"dtype": str(arr.dtype), "shape": list(arr.shape), "vals": _c03_ints(arr)}
+        else:  # 3-D photon (DataArray with wavelength)
+            out[b] = {"dtype": str(arr.dtype), "shape": list(arr.shape), "vals": _c03_ints(arr.to_numpy()),
+                      "wl": [float(v) for v in arr["wavelength"].to_numpy()], "dims": list(arr.dims)}
+    return out
+
+
+def c03_apply(detector, ops) -> None:
+    import xarray as xr
+
+    rows, cols = detector.geometry.shape
+    for op in ops:
+        kind = op[0]
+        if kind == "set":  # ["set", bucket, dtype, flat values]
+            _, b, dt, vals = op
+            arr = np.array(vals, dtype=np.dtype(dt)).reshape(rows, cols)
+            if b == "charge":
+                detector.charge.empty()
+                detector.charge.add_charge_array(arr)
+            elif b == "photon":
+                detector.photon.array = arr
+            else:
+                getattr(detector, b).array = arr
+        elif kind == "set3d":  # ["set3d", dtype, wavelengths, flat values]  (multi-wavelength photon)
+            _, dt, wl, vals = op
+            arr = np.array(vals, dtype=np.dtype(dt)).reshape(len(wl), rows, cols)
+            detector.photon.array_3d = xr.DataArray(arr, dims=["wavelength", "y", "x"], coords={"wavelength": wl})
+        elif kind == "add":  # ["add", bucket, k]  in-place accumulation on an initialised bucket
+            _, b, k = op
+            c = getattr(detector, b)
+            if b == "charge":
+                c.add_charge_array(np.full((rows, cols), float(k)))
+            else:
+                c._array += np.asarray(k, dtype=c._array.dtype)
+        elif kind == "same":  # ["same", bucket]  rewrite the bucket with a copy of what it holds
+            b = op[1]
+            c = getattr(detector, b)
+            if c._array is not None and b != "charge":
+                c.array = np.array(c._array, copy=True)
+        elif kind == "scene":  # ["scene", k]  put a source into the scene
+            k = int(op[1])
+            src = xr.Dataset(
+                {"x": ("ref", [float(k)]), "y": ("ref", [2.0 * k]), "weight": ("ref", [1.0]),
+                 "flux": (("ref", "wavelength"), [[float(k), k + 1.0]])},
+                coords={"ref": [0], "wavelength": [500.0, 600.0]},
+            )
+            detector.scene.add_source(src)
+        elif kind == "data":  # ["data", key, values]  processed data
+            _, key, vals = op
+            detector.data[f"/{key}"] = xr.DataTree(xr.Dataset({"v": ("n", [float(v) for v in vals])}))
+        else:
+            raise ValueError(kind)
+
+
+def c03_writer(detector, ident: str = "") -> None:
+    """C03: apply the next planned list of writes; record the visible state before and after"""
+    i = C03["calls"]
+    C03["calls"] = i + 1
+    plan = C03["plan"]
+    before = c03_visible(detector)
+    c03_apply(detector, plan[i] if i < len(plan) else [])
+    C03["writes"].append({"ident": ident, "step": int(detector.pipeline_count), "name": str(detector.current_running_model_name),
+                          "before": before, "after": c03_visible(detector)})
+
+
+def c03_snap(detector) -> None:
+    """C03: deep snapshot at the end of a step (buckets, scene, data, absolute time)"""
+    C03["snaps"].append({
+        "buckets": c03_visible(detector),
+        "abs": float(detector.absolute_time),
+        "scene": detector.scene.data.copy(deep=True) if hasattr(detector.scene.data, "copy") else None,
+        "data": detector.data.copy(deep=True),
+    })
